@@ -51,3 +51,9 @@ package core
 //@ traces (reflect.Value).Set
 //@ loop 0 invariant [C19] stores: 0 <= i && i <= len(from) && ncalls() == 2*i && (forall k int :: 0 <= k && k < i ==> calleeIs(2*k, "(reflect.Value).Set") && arg(2*k) == val && res(2*k) == elemConv(from[k], tt) && calleeIs(2*k+1, "(reflect.Value).Set") && arg(2*k+1) == rvIndexV(slice, k) && res(2*k+1) == val)
 //@ ensures [C19] elementwise: ncalls() == 2*len(from) + 1 && (forall k int :: 0 <= k && k < len(from) ==> arg(2*k) == val && res(2*k) == elemConv(from[k], tt) && arg(2*k+1) == rvIndexV(slice, k) && res(2*k+1) == val) && arg(2*len(from)) == obj && res(2*len(from)) == slice
+
+// C19: toInt on a string that is a decimal integer numeral is exactly strconv.ParseInt(s, 10, 64) - never a detour through
+// float64 (which would round above 2^53). Stated under the reflect fact that a string value is not convertible to int.
+//@ func ImportToX$3
+//@ props C19
+//@ ensures [C19] intstring: typeis(v, "string") && !typeConvertible(rvTypeOf(valueOfS(v)), typeOfS(iface(1, "int"))) && parseIntOK(as(v, "string"), 10, 64) ==> result == parseIntVal(as(v, "string"), 10, 64)
